@@ -100,6 +100,7 @@ def hexary_calls(acc, t, state_fn, key, where):
     for tag, nb in bad_nibbles():
         acc.call(f"HexaryTrie{where}.traverse({tag})", lambda nb=nb: t.traverse(nb), NIB, state_fn, "nibbles")
         acc.call(f"HexaryTrie{where}.traverse_from(root_node, {tag})", lambda nb=nb: t.traverse_from(root_node, nb), NIB, state_fn, "nibbles")
+        acc.call(f"HexaryTrie{where}.traverse(Nibbles(()) + {tag})", lambda nb=nb: t.traverse(Nibbles(()) + nb), NIB, state_fn, "nibbles")
 
 
 def hexary_state(t):
@@ -220,6 +221,10 @@ def work_fog(snap, model, _):
         return fogsys.members(f)
     for tag, nb in bad_nibbles():
         acc.call(f"Nibbles({tag})", lambda nb=nb: Nibbles(nb), NIB, st, "nibbles")
+        # the walking idiom: a validated prefix extended by a raw segment must be validated again
+        acc.call(f"Nibbles((1,)) + {tag}", lambda nb=nb: Nibbles((1,)) + nb, NIB, st, "nibbles")
+        acc.call(f"Nibbles(()) + {tag}", lambda nb=nb: Nibbles(()) + nb, NIB, st, "nibbles")
+        acc.call(f"fog.nearest_unknown(Nibbles(()) + {tag})", lambda nb=nb: f.nearest_unknown(Nibbles(()) + nb), NIB, st, "fog")
         acc.call(f"fog.explore({tag}, ())", lambda nb=nb: f.explore(nb, ()), NIB, st, "fog")
         acc.call(f"fog.mark_all_complete([{tag}])", lambda nb=nb: f.mark_all_complete([nb]), NIB, st, "fog")
         acc.call(f"fog.nearest_unknown({tag})", lambda nb=nb: f.nearest_unknown(nb), NIB, st, "fog")
